@@ -2,5 +2,5 @@
 # usage: tools/confirm_queue.sh "C10 id" "C11 id" ...   — runs the confirmations one after the other (one lock for all queues)
 for x in "$@"; do
   set -- $x
-  flock /tmp/confirm-seed.lock /verif/tools/confirm_seed.sh "$1" "$2" > "/tmp/confirm-$1.log" 2>&1
+  flock /tmp/confirm-seed.lock /verif/tools/confirm_seed.sh "$1" "$2" ${3:-} > "/tmp/confirm-$2.log" 2>&1
 done
